@@ -1,4 +1,5 @@
 import Mltwist.Lemmas.ComposeParse
+import Mltwist.Model.Compose
 import Mltwist.Props.C07
 import Mltwist.Model.Startup
 /-
@@ -23,10 +24,7 @@ open Mltwist Mltwist.Elf Mltwist.Parse Mltwist.Parse.Spec Mltwist.Deps Mltwist.L
 
 /-! ### C21 → C08: well-formed input -/
 
-/-- what `deps.NewCode` receives (`cmd/mltwist/main.go`: `deps.NewCode(entrypoint, ins)`): C07's `Raw` of a
-`parser.Instruction` -/
-def rawOf {δ : Type} (is : List (Parse.Ins δ)) : List Props.C07.Raw :=
-  is.map fun i => (i.typ, i.addr, i.bytes.length, i.effects)
+-- `rawOf` (what `deps.NewCode` receives: C07's `Raw` of a `parser.Instruction`): `Model/Compose.lean`
 
 /-- C07's `toBB` of `rawOf` is C26's `codeInput` mapped through C08's `mkIns`: the two start-up models hand the
 same instructions to `basicblock.Parse` -/
@@ -85,14 +83,7 @@ theorem inv_of_parse {bs : List Elf.Block} (ht : Elf.Spec.Tidy bs)
 
 /-! ### the code view of the dependency model -/
 
-/-- a `deps.Instruction` as the emulator sees it: `Begin()` (the CURRENT address), `Len()`, `Effects()` -/
-def emuOf (i : Deps.Ins) : Emulator.Ins := ⟨i.currAddr, i.len, i.effects⟩
-
-/-- all instructions of the code in the order of `blocksByAddr`, i.e. by address -/
-def insOf (c : Code) : List Deps.Ins := c.store.flatMap (·.seq)
-
-/-- THE CODE VIEW of the dependency model: what the emulator can observe of a `deps.Code` -/
-def codeViewOf (c : Code) : Emulator.CodeView := (insOf c).map emuOf
+-- `emuOf`, `insOf`, `codeViewOf` (THE CODE VIEW of the dependency model): `Model/Compose.lean`
 
 /-- the body of `Emulator.instruction` (`internal/emulator/emulator.go`): `code.Address(ip)`, then
 `block.Address(ip)`; `none` = a Go panic, `some none` = the "cannot find …" error -/
